@@ -318,11 +318,11 @@ func RunRaceGrow(seed int64) (out []Ev) {
 		}
 	}()
 	var ops int64
-	for round := 0; round < 2; round++ {
+	for round := 0; round < 6; round++ {
 		P := column.NewCollection(column.Options{Capacity: 64, Vacuum: time.Hour})
 		P.CreateColumn("a", column.ForInt64())
 		P.CreateColumn("s", column.ForString())
-		blocks := 1 + round // the collection is full up to a block boundary
+		blocks := 1 + round%2 // the collection is full up to a block boundary
 		P.Query(func(txn *column.Txn) error {
 			for i := 0; i < blocks*16384; i++ {
 				txn.Insert(func(r column.Row) error { r.SetInt64("a", 1); return nil })
@@ -348,18 +348,36 @@ func RunRaceGrow(seed int64) (out []Ev) {
 		hold := func(o uint32, d time.Duration) func() {
 			return func() { P.QueryAt(o, func(column.Row) error { time.Sleep(d); return nil }) }
 		}
-		run(0, hold(0, 300*time.Millisecond))    // a slow reader in block 0
-		run(0, hold(last, 600*time.Millisecond)) // and one on the latch of the block to come
-		run(60*time.Millisecond, func() {        // A: a commit to block 0, queues behind the reader
-			P.QueryAt(0, func(r column.Row) error { r.MergeInt64("a", 1); r.SetString("s", "x"); return nil })
-		})
-		run(150*time.Millisecond, func() { // B: grows the collection into the next block, queues behind the other reader
-			P.Insert(func(r column.Row) error { r.SetInt64("a", 2); return nil })
-		})
-		run(200*time.Millisecond, func() { // a snapshot beside both
-			var buf bytes.Buffer
-			P.Snapshot(&buf)
-		})
+		if round >= 4 {
+			// the other order: the growth comes AFTER the apply. The committer's last synchronisation with the collection
+			// (the collection lock around the fill read) precedes its apply, so only the column lock orders the apply
+			// before the growth. B holds its transaction (taken from the pool before A returns its own) open over A's commit.
+			run(0, func() {
+				P.Query(func(txn *column.Txn) error {
+					txn.Insert(func(r column.Row) error { r.SetInt64("a", 2); r.SetString("s", "y"); return nil })
+					time.Sleep(150 * time.Millisecond)
+					return nil
+				})
+			})
+			run(50*time.Millisecond, func() {
+				P.QueryAt(0, func(r column.Row) error { r.MergeInt64("a", 1); r.SetString("s", "x"); return nil })
+			})
+		} else {
+			run(0, hold(0, 300*time.Millisecond))    // a slow reader in block 0
+			run(0, hold(last, 600*time.Millisecond)) // and one on the latch of the block to come
+			run(60*time.Millisecond, func() {        // A: a commit to block 0, queues behind the reader
+				P.QueryAt(0, func(r column.Row) error { r.MergeInt64("a", 1); r.SetString("s", "x"); return nil })
+			})
+			run(150*time.Millisecond, func() { // B: grows the collection into the next block, queues behind the other reader
+				P.Insert(func(r column.Row) error { r.SetInt64("a", 2); return nil })
+			})
+		}
+		if round < 2 { // a snapshot beside both; the later rounds go without it: its read latches order A's apply after B's growth
+			run(200*time.Millisecond, func() {
+				var buf bytes.Buffer
+				P.Snapshot(&buf)
+			})
+		}
 		done := make(chan struct{})
 		go func() { wg.Wait(); close(done) }()
 		select {
